@@ -1137,6 +1137,29 @@ func (c *Ctx) checkTyper(f *ssa.Function) {
 			}
 		}
 	}
+	// the loop over the inputs visits every position: it is left only when exhausted or with an error
+	nLoops := 0
+	for _, h := range f.Blocks {
+		isHdr := false
+		for _, p := range h.Preds {
+			if h.Dominates(p) {
+				isHdr = true
+			}
+		}
+		if !isHdr {
+			continue
+		}
+		nLoops++
+		if early, where := c.loopEarlyExit(h); early {
+			c.violate("R6", "R6:T7:typer-all-inputs", firstNonEmpty(where, site), "the dtype loop over the inputs can be left early without an error (e.g. at the first absent optional input): the element types of the remaining inputs are never checked")
+			nLoops = -1 << 20
+		}
+	}
+	if nLoops > 0 {
+		c.discharge("R6", "R6:T7:typer-all-inputs", site, "the dtype loop is left only when every input was looked at or with an error")
+	} else if nLoops == 0 {
+		c.violate("R6", "R6:T7:typer-all-inputs", site, "the dtype stage has no loop over the inputs")
+	}
 	c.decide(okIdx && okNil && okRej, "R6", "R6:T7:typer", site,
 		"constraints[i] is read with the index of inputs[i], only for non-nil inputs; a dtype outside the row returns an error",
 		fmt.Sprintf("dtype stage malformed (same-index=%v nil-skip=%v miss-rejects=%v)", okIdx, okNil, okRej))
